@@ -315,3 +315,34 @@ pub proof fn lemma_group_all(g: Rc<dyn Get>, gs: Gs, r: Seq<Context>, k: String)
         }
     }
 }
+
+// C08: the window IS rows S .. S+T-1 (positions counted from 0), cut at the end of the list; without --take everything from S on
+pub open spec fn imin2(a: int, b: int) -> int { if a < b { a } else { b } }
+pub proof fn lemma_window_is_slice(s: nat, t: Option<nat>, r: Seq<Context>)
+    ensures window(s, t, r) == (match t { Some(n) => r.subrange(imin2(s as int, r.len() as int), imin2((s + n) as int, r.len() as int)), None => r.subrange(imin2(s as int, r.len() as int), r.len() as int) }), // @obl THY.C08.window_is_rows_S_to_S_plus_T : C08 C03
+    decreases r.len(),
+{
+    let l = r.len() as int;
+    if r.len() == 0 {
+        assert(window(s, t, r) =~= r.subrange(0, 0));
+    } else if s > 0 {
+        lemma_window_is_slice((s - 1) as nat, t, tail(r));
+        let tl = tail(r);
+        match t {
+            Some(n) => { assert(tl.subrange(imin2(s - 1, l - 1), imin2(s - 1 + n, l - 1)) =~= r.subrange(imin2(s as int, l), imin2((s + n) as int, l))); },
+            None => { assert(tl.subrange(imin2(s - 1, l - 1), l - 1) =~= r.subrange(imin2(s as int, l), l)); },
+        }
+    } else {
+        match t {
+            None => { assert(r.subrange(0, l) =~= r); },
+            Some(n) => {
+                if n == 0 { assert(window(s, t, r) =~= r.subrange(0, 0)); }
+                else {
+                    lemma_window_is_slice(0, Some((n - 1) as nat), tail(r));
+                    let tl = tail(r);
+                    assert(seq![r[0]].add(tl.subrange(0, imin2(n - 1, l - 1))) =~= r.subrange(0, imin2(n as int, l)));
+                }
+            },
+        }
+    }
+}
